@@ -150,6 +150,26 @@ def check(case, obj=None) -> list[Fail]:
             got = [dump(t._to_serial_root()) for t in f(i)]
             if got != ref.enc_row(row):
                 fails.append(Fail("nth-row", k, f"i={i} got={got} want={ref.enc_row(row)}"[:300]))
+    # graph-level: the HUGR reports for a port what the node's operation reports (every operation kind, every
+    # offset including the order port: e.g. no order port on a definition, a constant, a case or a block)
+    if k != "Module":
+        import hugr.ops as hops
+
+        hm = Hugr(hops.Module())
+        ndm = hm.add_node(x, hm.root)
+        for off in range(-1, 5):
+            for P in (InPort, OutPort):
+                try:
+                    a = enc_kind(x.port_kind(P(ndm, off)))
+                except Exception as e:  # noqa: BLE001
+                    a = f"raises {type(e).__name__}"
+                try:
+                    b = enc_kind(hm.port_kind(P(ndm, off)))
+                except Exception as e:  # noqa: BLE001
+                    b = f"raises {type(e).__name__}"
+                if a != b:
+                    fails.append(Fail("hugr.port_kind", f"{k}:differs-from-the-operation's:{'order' if off == -1 else 'value'}-{'in' if P is InPort else 'out'}", f"offset {off}: operation says {a}, HUGR says {b}"[:300]))
+                    break
     # graph-level: type reported for a value output port == payload of that port's kind
     if outs is not None and k not in ("Module",):
         import hugr.ops as ops
@@ -200,6 +220,9 @@ def check_reused(case) -> list[Fail]:
     U = {"k": "unit"}
     other = {"Noop": [U], "MakeTuple": [U], "UnpackTuple": [{"k": "tuple", "ts": [U]}], "CallIndirect": [{"k": "fn", "i": [], "o": [U], "reqs": []}]}[k]
     actual = s["ins"]
+    if k == "UnpackTuple" and case.get("sum_spelling"):
+        # the tuple written as a plain one-variant sum (what a decoded document or a Tag produces)
+        actual = [{"k": "sum", "rows": [list(op["ts"])]}]
     d = Dfg(*mk_row(other), *mk_row(actual))
     ws = d.inputs()
     p = partial_op(op)
@@ -217,7 +240,7 @@ def check_reused(case) -> list[Fail]:
 
 
 def reused_strategy(tier):
-    return asts.op_asts(2, kinds=list(PARTIAL)).map(lambda o: {"op": o})
+    return st.tuples(asts.op_asts(2, kinds=list(PARTIAL)), st.booleans()).map(lambda t: {"op": t[0], "sum_spelling": t[1]})
 
 
 def _is_reuse(case) -> bool:
